@@ -28,7 +28,10 @@ Inductive val := VSide (s : side) | VTwo (l r : side) | VMulti.
 Definition reduce_mul (ts : list term) : res term :=
   match ts with [] => inr (EInternal 3) | t :: r => inl (fold_left tmul r t) end.
 Definition nested (parents nest : list term) : res (list term) :=
-  match reduce_mul parents with inl common => inl (union parents (oset (map (fun t => tmul common t) nest) [])) | inr e => inr e end.
+  match parents with
+  | [] => inr ESyntax                       (* "require at least one parent term" *)
+  | _ => match reduce_mul parents with inl common => inl (union parents (oset (map (fun t => tmul common t) nest) [])) | inr e => inr e end
+  end.
 
 (* classification of a VALUE token as ast.literal_eval sees it (digits/dots/quotes only) *)
 Definition is_digit (x : N) := (48 <=? x) && (x <=? 57).
@@ -45,23 +48,20 @@ Definition classify_lit (s : str) : lit :=
   end.
 Fixpoint product_n (arg : list term) (n : nat) : list (list term) :=   (* itertools.product of n copies of arg, as lists of terms *)
   match n with O => [[]] | S n' => flat_map (fun t => map (cons t) (product_n arg n')) arg end.
+(* the exponent must be a single term made of a single VALUE token that literal_eval reads as an int >= 1 *)
 Definition power (arg pw : list term) : res (list term) :=
   match pw with
-  | [] => inr (EInternal 2)
-  | pt :: _ =>
-      match pt with
-      | [f] => if kind_eqb (kd f) KValue then
-                 match classify_lit (tx f) with
-                 | LInt n => (fix go (l : list (list term)) (acc : list term) : res (list term) :=
-                                match l with [] => inl (oset (rev acc) [])
-                                | tup :: r => match reduce_mul tup with inl t => go r (t :: acc) | inr e => inr e end end)
-                             (product_n arg n) []
-                 | LBad => inr EPySyntax
-                 | _ => inr ESyntax
-                 end
-               else inr ESyntax
-      | _ => inr ESyntax
-      end
+  | [[f]] =>
+      if kind_eqb (kd f) KValue then
+        match classify_lit (tx f) with
+        | LInt (S n) => (fix go (l : list (list term)) (acc : list term) : res (list term) :=
+                           match l with [] => inl (oset (rev acc) [])
+                           | tup :: r => match reduce_mul tup with inl t => go r (t :: acc) | inr e => inr e end end)
+                        (product_n arg (S n)) []
+        | _ => inr ESyntax
+        end
+      else inr ESyntax
+  | _ => inr ESyntax
   end.
 
 Record pctx := { avail : option (list str); used_lhs : option (list str) }.
@@ -166,10 +166,17 @@ Definition finish_terms (fixed intercept : bool) (f : flags) (avail_vars : optio
       end
   end.
 
-Definition get_terms (fixed intercept : bool) (f : flags) (avail_vars : option (list str)) (bad : list (str * nat)) (pv : list (str * list str))
-                     (cl : N -> cls) (s : str) : res val :=
+(* python normalisation (ast.unparse and backtick aliasing) is an oracle: raw fragment text -> normalised text *)
+Fixpoint py_norm (pn : list (str * str)) (s : str) : str :=
+  match pn with [] => s | (a, b) :: r => if leqb a s then b else py_norm r s end.
+Definition normalise (pn : list (str * str)) (t : tk) : tk :=
+  if kind_eqb (kd t) KPython && negb (leqb (tx t) [cDOT]) then {| tx := py_norm pn (tx t); kd := KPython |} else t.
+
+Definition get_terms (fixed intercept : bool) (f : flags) (avail_vars : option (list str)) (bad : list (str * nat)) (pn : list (str * str))
+                     (pv : list (str * list str)) (cl : N -> cls) (s : str) : res val :=
   let '(toks, lexerr) := tokenize_partial cl s in
-  let '(ts0, pyerr) := cut_bad bad (map of_token toks) in
+  let '(ts0', pyerr) := cut_bad bad (map of_token toks) in
+  let ts0 := map (normalise pn) ts0' in
   let terminal := match pyerr with Some e => Some e | None => match lexerr with Some _ => Some ESyntax | None => None end end in
   match terminal with
   | None => finish_terms fixed intercept f avail_vars pv ts0
